@@ -283,7 +283,10 @@ def _bdd_collect(prop, res, tr, props=None, build=None):
     for gl, t in tr["tuples"]:
         if gl is None:
             continue
-        if t[0] == "MISMATCH" and t[3] in props:
+        # C06 speaks about FORMULAS and their handles ("same handle iff same function", "collapses to top iff valid"): an operation
+        # that hands out a handle denoting another function than the formula it was asked for breaks it as much as a duplicate node does
+        also_c06 = prop == "C06" and t[0] == "MISMATCH" and t[3] == "C07" and t[4] != "prefix"
+        if t[0] == "MISMATCH" and (t[3] in props or also_c06):
             rec = json.loads(tr["lines"][gl - 1])
             # the replay file carries the whole sequence up to the failing record
             j = gl - 1
